@@ -100,6 +100,9 @@ class Builder:
             out = _mk_dist_real(G["off"]) if self.real else _mk_dist(G["off"], G["soff"])
         elif k == "fn":
             out = self._mk_fn(name, G, role)
+        elif k == "vmap" and G.get("as_site"):
+            # an array-valued address: the callee distribution called once with vector parameters
+            out = self.build(G["callee"])
         elif k == "vmap":
             callee = self.build(G["callee"])
             assert self.kind(G["callee"]) in ("dist", "fn")
